@@ -155,3 +155,118 @@ func (f gFeat) locText() string {
 	}
 	return s
 }
+
+// ---- record generator shared by the C01 and C03 harnesses
+
+func c01Printable() string {
+	var b []byte
+	for c := byte(32); c < 127; c++ {
+		if c != '"' {
+			b = append(b, c)
+		}
+	}
+	return string(b)
+}
+
+// locus-name letters: lower case without the first letters of the molecule-type names (each of
+// those would fork the search for the molecule type at every position)
+const c01NameAlpha = "abcdefhijklnpqswxyz"
+const c01NameLast = "abcdefhijklnpqswxyz0123456789"
+const c01Letters = "abcdefghijklmnopqrstuvwxyz"
+const c01Word = "abcdefghijklmnopqrstuvwxyzABCDEFGHIJKLMNOPQRSTUVWXYZ"
+
+func c01Value(n int) string {
+	v := vBytes(n, c01Printable())
+	vAssume(vAnd(v[0] != ' ', v[n-1] != ' '))
+	return v
+}
+
+// c01Record draws an abstract record; tag makes concrete parts distinct between records.
+func c01Record(tag string, small bool) gRec {
+	var r gRec
+	if small {
+		// reduced generator for the multi-record harness (the second record has a fixed shape)
+		prof := 1
+		if tag == "A" {
+			prof = vChoice(2)
+		}
+		r.name = vBytes([]int{4, 1}[prof], c01NameAlpha) + vBytes(1, c01NameLast)
+		r.mol, r.topo, r.div, r.date = []string{"DNA", "mRNA"}[prof], []string{"linear", "circular"}[prof], "SYN", "12-APR-2021"
+		r.seq = vBytes([]int{4, 12}[prof], c01Letters)
+		r.def = "Synthetic " + vBytes(2, c01Word) + " construct" + tag + "."
+		r.acc, r.ver, r.kw, r.src, r.org = "AB0001"+tag, "AB0001.1", ".", "synthetic DNA", "synthetic DNA construct"
+		fk := 1
+		if tag == "A" {
+			fk = vChoice(3)
+		}
+		switch fk {
+		case 1:
+			r.feats = []gFeat{{key: "gene", locLines: []string{"1..3"}, quals: []gQual{{"gene", c01Value(2)}}}}
+		case 2:
+			r.feats = []gFeat{{key: "misc_feature", locLines: []string{"2..4"}}, {key: "CDS", locLines: []string{"join(1..2,", "3..4)"}, quals: []gQual{{"product", "p" + tag}}}}
+		}
+		return r
+	}
+	full := vTier(0, 1) == 1 // thorough: full cross product; quick: the axes are tied to the profile
+	prof := vChoice(vTier(4, 6))
+	pick := func(k int) bool {
+		if full {
+			return vChoice(2) == 1
+		}
+		return (prof>>uint(k))&1 == 1
+	}
+	nameLen := []int{5, 2, 5, 5, 3, 5}[prof]
+	seqLen := []int{4, 12, 61, 12, 4, 61}[prof]
+	r.mol = []string{"DNA", "mRNA", "tRNA", "rRNA", "DNA", "mRNA"}[prof]
+	r.topo = []string{"linear", "circular", "linear", "circular", "circular", "linear"}[prof]
+	r.name = vBytes(nameLen-1, c01NameAlpha) + vBytes(1, c01NameLast)
+	r.div, r.date = "SYN", "12-APR-2021"
+	r.seq = vBytes(seqLen, c01Letters)
+	r.def = "Synthetic " + vBytes(2, c01Word) + " construct" + tag + "."
+	if pick(0) {
+		r.defCont = "second line " + vBytes(2, c01Word)
+	}
+	r.acc, r.ver, r.kw = "AB0001"+tag, "AB0001.1", "."
+	r.src = "synthetic DNA " + vBytes(2, c01Word)
+	r.org = "synthetic DNA construct"
+	if pick(1) {
+		r.orgCont = "other sequences; artificial " + vBytes(2, c01Word) + "."
+	}
+	nr := prof % 2
+	if full {
+		nr = vChoice(3)
+	}
+	for i := 0; i < nr; i++ {
+		rf := gRef{idx: gItoa(i + 1), rng: "(bases 1 to " + gItoa(seqLen) + ")", authors: "Doe,J. and " + vBytes(2, c01Word) + ",K.", title: "Direct " + vBytes(2, c01Word), journal: "Unpublished" + tag}
+		if i == 0 {
+			rf.pubmed = "12345"
+			rf.remark = "first " + vBytes(2, c01Word)
+		}
+		r.refs = append(r.refs, rf)
+	}
+	if !pick(0) {
+		r.comment = "A comment " + vBytes(2, c01Word) + "."
+	}
+	vn := vTier(2, 3)
+	switch vChoice(7) {
+	case 0:
+	case 1:
+		r.feats = []gFeat{{key: "gene", locLines: []string{"1..3"}, quals: []gQual{{"gene", c01Value(vn)}}}}
+	case 2:
+		r.feats = []gFeat{{key: "misc_feature", locLines: []string{"2..4"}}, {key: "CDS", locLines: []string{"complement(1..3)"}, quals: []gQual{{"product", c01Value(vn)}}}}
+	case 3:
+		r.feats = []gFeat{{key: "CDS", locLines: []string{"join(1..2,", "3..4)"}, quals: []gQual{{"note", c01Value(vn)}}}}
+	case 4:
+		r.feats = []gFeat{{key: "CDS", locLines: []string{"join(1..1,", "2..2,", "3..4)"}, quals: []gQual{{"note", c01Value(vn)}, {"gene", "x"}}}}
+	case 5:
+		v := c01Value(vn) + " " + c01Value(vn)
+		r.feats = []gFeat{{key: "gene", locLines: []string{"1..4"}, quals: []gQual{{"note", v}}, wrapAt: []int{vn}}}
+		vFindingClause("C01-F7", "qualifier-values-verbatim", v[vn+1] == '/')
+		vFindingClause("C01-F7", "qualifier-set-as-written", v[vn+1] == '/')
+	case 6:
+		r.feats = []gFeat{{key: "gene", locLines: []string{"1..3"}, quals: []gQual{{"gene", c01Value(vn)}, {"note", "plain text"}}},
+			{key: "CDS", locLines: []string{"<1..>4"}, quals: []gQual{{"product", c01Value(vn)}, {"codon_start", "1"}}}}
+	}
+	return r
+}
+
